@@ -331,7 +331,7 @@ fn run_op(st: &mut St, op: &Value) -> Value {
             json!({})
         }
         "arena" => arena_json(gr(st)),
-        "action" => run_action(&st.g, op["provider"].as_str().unwrap(), op["target"].as_u64().unwrap()),
+        "action" => run_action(gr(st), op["provider"].as_str().unwrap(), op["target"].as_u64().unwrap()),
         "keys" => {
             let mut m = serde_json::Map::new();
             for k in gr(st).keys() {
@@ -343,7 +343,7 @@ fn run_op(st: &mut St, op: &Value) -> Value {
         "copy_collect" => {
             // the copy path of patch graphs: collected tree -> Graph::build_key_from_iter -> collect
             let k = key(op);
-            let t = (&st.g).collect(&k);
+            let t = gr(st).collect(&k);
             let mut patch = Graph::new();
             patch.build_key_from_iter(&k, liwe::model::tree::TreeIter::new(&t));
             let mut keys = serde_json::Map::new();
@@ -352,18 +352,18 @@ fn run_op(st: &mut St, op: &Value) -> Value {
             }
             json!({"tree": tree_json(&(&patch).collect(&k)), "arena": arena_json(&patch), "keys": Value::Object(keys)})
         }
-        "squash" => tree_json(&(&st.g).squash(&key(op), op["depth"].as_u64().unwrap() as u8)),
+        "squash" => tree_json(&gr(st).squash(&key(op), op["depth"].as_u64().unwrap() as u8)),
         "project" => {
             let k = key(op);
-            let t = (&st.g).collect(&k);
+            let t = gr(st).collect(&k);
             gblocks(&Projector::project(t.iter(), &k.parent()))
         }
         "project_squash" => {
             let k = key(op);
-            let t = (&st.g).squash(&k, op["depth"].as_u64().unwrap() as u8);
+            let t = gr(st).squash(&k, op["depth"].as_u64().unwrap() as u8);
             gblocks(&Projector::project(t.iter(), &k.parent()))
         }
-        "to_markdown" => json!(st.g.to_markdown(&key(op))),
+        "to_markdown" => json!(gr(st).to_markdown(&key(op))),
         "parse_blocks" => {
             // text -> Document blocks (Debug form) : witnesses for grammar productions
             let d = liwe::graph::Reader::document(&MarkdownReader::new(), op["text"].as_str().unwrap());
@@ -371,7 +371,7 @@ fn run_op(st: &mut St, op: &Value) -> Value {
         }
         "block_refs_to" => json!(gr(st).get_block_references_to(&key(op))),
         "inline_refs_to" => json!(gr(st).get_inline_references_to(&key(op))),
-        "block_refs_in" => json!(st.g.get_block_references_in(&key(op))),
+        "block_refs_in" => json!(gr(st).get_block_references_in(&key(op))),
         "title" => json!(gr(st).get_key_title(&key(op))),
         "metadata" => {
             // front-matter as the exported text carries it
@@ -389,8 +389,8 @@ fn run_op(st: &mut St, op: &Value) -> Value {
             }
         }
         "node_id_at" => json!(gr(st).get_node_id_at(&key(op), op["line"].as_u64().unwrap() as usize)),
-        "line_range" => json!(st.g.node_line_range(op["id"].as_u64().unwrap()).map(|r| vec![r.start, r.end])),
-        "key_of" => json!((&st.g).key_of(op["id"].as_u64().unwrap()).to_string()),
+        "line_range" => json!(gr(st).node_line_range(op["id"].as_u64().unwrap()).map(|r| vec![r.start, r.end])),
+        "key_of" => json!(gr(st).key_of(op["id"].as_u64().unwrap()).to_string()),
         "paths" => json!(gr(st).paths().iter().map(|p| p.ids()).collect::<Vec<_>>()),
         "link_pos" => {
             // first link of the document: its inline range (line, character)
